@@ -74,6 +74,19 @@ def selfonly_case(draw):
 def enumerate_cases(tier):
     """C13's hand-made structure fonts as third-party input, on every run (what is drawn at random among 32 cases is as good as
     untested), with the default flags; space glyph, layout rules, post format and glyph interleaving vary over the rows."""
+    # nanoemoji-built inputs with 24 colour glyphs that all share one shape: glyph ids with two digits, one id a decimal prefix of
+    # others (glyph2 / glyph20..25), all in one OT-SVG document (picosvg) or sharing one outline (COLR)
+    for fmt in ("picosvg", "glyf_colr_1"):
+        sources = []
+        for i in range(24):
+            x, y = 8.0 + 3.0 * (i % 8), 10.0 + 9.0 * (i // 8)
+            shared = {"t": "p", "d": [["M", x, y], ["L", x + 30.0, y], ["L", x + 30.0, y + 22.0], ["L", x + 12.0, y + 30.0], ["L", x, y + 22.0], ["Z"]],
+                      "fill": {"k": "solid", "c": "#%02x%02x%02x" % (40 + 8 * i, 200 - 7 * i, (i * 37) % 256)}, "op": 1.0, "tag": "lib0:translate"}
+            own = {"t": "p", "d": [["M", 60.0, 60.0 + i], ["L", 90.0 - i, 62.0], ["L", 75.0, 95.0 - i], ["Z"]], "fill": {"k": "solid", "c": "#%02x40%02x" % (250 - 9 * i, 10 * i)}, "op": 1.0, "tag": "fresh"}
+            sources.append({"model": {"vb": [0.0, 0.0, 100.0, 100.0], "nodes": [shared, own] if i % 3 else [own, shared]}, "cps": [0x1F600 + i]})
+        cfg = {"upem": 1024, "ascender": 950, "descender": -250, "width": 1275, "linegap": 0, "color_format": fmt, "transform": [1, 0, 0, 1, 0, 0], "reuse_tolerance": 0.1,
+               "clipbox_quantization": None, "keep_glyph_names": fmt != "picosvg", "pretty_print": False}
+        yield {"kind": "nano", "fmt": fmt, "vc": {"cfg": cfg, "sources": sources}, "flags": {"bitmaps": False, "colr_version": 1, "keep_glyph_names": False}}
     rows = list(c13.fixed_rows())
     for i, third in enumerate(rows):
         third = dict(third, interleave=bool(i % 2))
